@@ -198,6 +198,7 @@ Definition run_with (k : @mval F -> @env F -> @rv F) (g : @mexpr F) (en0 : @env 
   | Ok (ONorm v en) | Ok (ORet v en) => k v (base_env (List.length en0) en)
   | Ok OPanic => RPanic
   | Ok OType => RType
+  | Ok OUB => RType
   | Panic => RPanic
   end.
 (* the value of the body *)
@@ -231,3 +232,38 @@ Ltac ops_norm :=
 Ltac ops_tac :=
   intros; split_ops; unfold run_val, run_self, run_try, run_setter, run_with;
   repeat (ops_norm; mr_split); ops_norm; try reflexivity.
+
+(* compositional evaluation of the sequencing constructs (for proofs about loops, where the body is kept folded) *)
+Section Compose.
+Context {F : Type} {NF : Num F}.
+Variable c : cfg.
+Definition after (r : res (@outcome F)) (k : @mval F -> @env F -> res (@outcome F)) : res (@outcome F) :=
+  match r with Ok (ONorm v en) => k v en | Ok o => Ok o | Panic => Panic end.
+Lemma flatten_let x a body en :
+  flatten (eval c (ELet (PVar x) a body) en)
+  = after (flatten (eval c a en)) (fun v en1 =>
+      after (flatten (eval c body ((x, v) :: en1))) (fun w en2 => Ok (ONorm w (skipn 1 en2)))).
+Proof.
+  cbn [eval]. rewrite flatten_tbind. unfold after. destruct (flatten (eval c a en)) as [[v en1| | | |]|]; try reflexivity.
+  cbn [pmatch app List.length]. rewrite flatten_tbind. destruct (flatten (eval c body ((x, v) :: en1))) as [[]|]; reflexivity.
+Qed.
+Lemma flatten_let_pat p a body en :
+  flatten (eval c (ELet p a body) en)
+  = after (flatten (eval c a en)) (fun v en1 =>
+      match pmatch c p v with
+      | Some bs => after (flatten (eval c body (List.app bs en1))) (fun w en2 => Ok (ONorm w (skipn (List.length bs) en2)))
+      | None => Ok OType
+      end).
+Proof.
+  cbn [eval]. rewrite flatten_tbind. unfold after. destruct (flatten (eval c a en)) as [[v en1| | | |]|]; try reflexivity.
+  destruct (pmatch c p v) as [bs|]; [|reflexivity].
+  rewrite flatten_tbind. destruct (flatten (eval c body (List.app bs en1))) as [[]|]; reflexivity.
+Qed.
+Lemma flatten_seq a b en :
+  flatten (eval c (ESeq a b) en) = after (flatten (eval c a en)) (fun _ en1 => flatten (eval c b en1)).
+Proof. cbn [eval]. rewrite flatten_tbind. unfold after. destruct (flatten (eval c a en)) as [[]|]; reflexivity. Qed.
+Lemma flatten_for x fld body en items :
+  lookup fld en = Some (MArr items) ->
+  flatten (eval c (EFor x (EVar fld) body) en) = flatten (for_loop (eval c body) x items en).
+Proof. intros H. cbn [eval]. rewrite H. cbn [opt_leaf]. rewrite flatten_tbind. reflexivity. Qed.
+End Compose.
